@@ -170,7 +170,7 @@ def first_diff(a, b):
 
 class C19(Machine):
     ID = "C19"
-    FAMILY_WEIGHTS = {"sparse": 3, "dense": 1, "canal": 2, "modular": 3, "maa": 2, "cascade": 2, "maa_cascade": 4, "degenerate": 1}
+    FAMILY_WEIGHTS = {"sparse": 3, "dense": 1, "canal": 2, "modular": 3, "maa": 2, "cascade": 2, "maa_cascade": 4, "degenerate": 1, "inputs_mix": 2}
     NMAX = {"quick": 6, "thorough": 7}
     FMTS = ("bnet", "aeon", "api")
     NONDETERMINISTIC_REPLAY = True
